@@ -22,6 +22,8 @@ from .. import pipeline as P
 from ..gen import audio as A
 from ..models import fmt as FM
 
+from ..ctx import scratch_dir  # noqa: E402
+
 ID = "C15"
 LEVEL = "exploration"
 TIERS = {"quick": {"shards": 16, "budget_s": 120, "runs": 40, "subprocess_runs": 4, "formatter_values": 4000},
@@ -639,7 +641,7 @@ def live_producer_run(ctx, rng, tmp):
 
 def run_shard(ctx, upto=None):
     conf = TIERS[ctx.tier]
-    tmp = tempfile.mkdtemp(prefix="vf-c15-")
+    tmp = scratch_dir(ctx, "vf-c15-")
     try:
         rng = ctx.rng("sub")
         for i in range(conf["subprocess_runs"] if upto is None else 0):
